@@ -187,7 +187,8 @@ Proof.
   unfold validate_src_host, slow.
   destruct (negb _); [intros [= <-]; reflexivity|].
   destruct (parse_host _ _); try discriminate.
-  destruct (is_4in6 ip); [discriminate|]. intros [= <-]; reflexivity.
+  - destruct (is_4in6 ip); [discriminate|]. intros [= <-]; reflexivity.
+  - intros [= <-]; reflexivity.
 Qed.
 Lemma validate_src_host_nf s r : validate_src_host c s = Stop r -> not_forward r.
 Proof.
@@ -656,3 +657,519 @@ Proof.
 Qed.
 
 End C06.
+
+(** * List helpers *)
+Lemma set_nth_same {A} (l : list A) n x y :
+  nth_error l n = Some y -> nth_error (set_nth l n x) n = Some x.
+Proof.
+  revert n. induction l as [|a t IH]; intros [|n]; cbn; intros H; try discriminate; auto.
+Qed.
+
+Lemma set_nth_other {A} (l : list A) n m x :
+  n <> m -> nth_error (set_nth l n x) m = nth_error l m.
+Proof.
+  revert n m. induction l as [|a t IH]; intros [|n] [|m] H; cbn; try reflexivity.
+  - congruence.
+  - apply IH. congruence.
+Qed.
+
+Lemma set_nth_length {A} (l : list A) n x : length (set_nth l n x) = length l.
+Proof. revert n. induction l as [|a t IH]; intros [|n]; cbn; auto. Qed.
+
+Lemma nthN_set_same {A} (l : list A) n x y :
+  nthN l n = Some y -> nthN (set_nthN l n x) n = Some x.
+Proof. unfold nthN, set_nthN. apply set_nth_same. Qed.
+
+Lemma nthN_set_other {A} (l : list A) n m x :
+  n <> m -> nthN (set_nthN l n x) m = nthN l m.
+Proof.
+  unfold nthN, set_nthN. intros H. apply set_nth_other. intros E. apply H.
+  now apply N2Nat.inj.
+Qed.
+
+Lemma nthN_lt {A} (l : list A) n y : nthN l n = Some y -> n < N.of_nat (length l).
+Proof.
+  unfold nthN. intros H. assert (N.to_nat n < length l)%nat by (apply nth_error_Some; congruence).
+  lia.
+Qed.
+
+(** the info index moves by exactly one at a segment boundary *)
+Lemma inf_index_step p hf :
+  seglen_ok p = true -> hf + 1 < num_hops p ->
+  inf_index_for_hf p (hf + 1) <> inf_index_for_hf p hf ->
+  inf_index_for_hf p (hf + 1) = inf_index_for_hf p hf + 1.
+Proof.
+  unfold seglen_ok, num_hops, inf_index_for_hf. intros S L.
+  destruct (hf + 1 <? p_seg0 p) eqn:A; destruct (hf <? p_seg0 p) eqn:B;
+    destruct (hf + 1 <? p_seg0 p + p_seg1 p) eqn:C; destruct (hf <? p_seg0 p + p_seg1 p) eqn:D;
+    intros H; try congruence; try reflexivity; exfalso;
+    apply andb_true_iff in S as [S1 S2]; apply negb_true_iff in S1, S2;
+    rewrite ?N.ltb_lt, ?N.ltb_ge in *.
+  all: try lia.
+  (* 0 -> 2: seg1 = 0 while seg2 > 0 *)
+  assert (p_seg1 p = 0) by lia.
+  assert (0 <? p_seg2 p = true) by (apply N.ltb_lt; lia).
+  rewrite H1 in S1. cbn in S1. apply orb_false_iff in S1 as [S1 _]. apply N.eqb_neq in S1. lia.
+Qed.
+
+(** * C05 *)
+Lemma no_egress_zero_from_outside c ilt x : validate_egress false ilt (get_if c 0) x <> EgOk.
+Proof. cbn. destruct ilt, x; cbn; discriminate. Qed.
+
+Section C05.
+Variable mac : N -> N -> N -> N -> N -> list N.
+Notation macq := (total mac).
+Variable c : cfg.
+Variable now : N.
+Variable ing : ingress.
+
+Lemma forward_from_outside p e out d :
+  from0 ing = false ->
+  process_scion macq c now ing p = Forward e out d ->
+  p_src_ia p <> c_ia c /\
+  (is_last_hop p = true <-> p_dst_ia p = c_ia c) /\
+  (e = 0 <-> is_last_hop p = true /\ p_dst_ia p = c_ia c).
+Proof.
+  intros F0 H.
+  apply process_forward_inv in H as (s & i & h & F & D).
+  pose proof (if_ia _ _ _ _ _ _ _ _ F) as IA. rewrite F0 in IA. destruct IA as [IA1 IA2].
+  split; [exact IA1|]. split.
+  - rewrite IA2. apply N.eqb_eq.
+  - destruct D as [(A & B & _) | (A & _ & s' & G & -> & _)].
+    + split; [intros _|auto]. split; [|exact A]. rewrite IA2. now apply N.eqb_eq.
+    + split.
+      * intros E0. exfalso. pose proof (ef_adm _ _ _ _ _ _ G) as Adm.
+        rewrite E0, F0 in Adm. now apply no_egress_zero_from_outside in Adm.
+      * intros [_ B]. contradiction.
+Qed.
+
+Lemma forward_from_inside p e out d :
+  from0 ing = true ->
+  process_scion macq c now ing p = Forward e out d ->
+  (is_first_hop p = true -> p_src_ia p = c_ia c) /\
+  p_dst_ia p <> c_ia c /\
+  (is_first_hop p = false ->
+   exists id f, claimed_ingress p = Some id /\ get_if c id = Some f /\
+                if_scope f = Sibling /\ if_link f = ing_link ing).
+Proof.
+  intros F0 H.
+  apply process_forward_inv in H as (s & i & h & F & _).
+  pose proof (if_ia _ _ _ _ _ _ _ _ F) as IA. rewrite F0 in IA. destruct IA as [IA1 IA2].
+  split; [exact IA1|]. split; [exact IA2|].
+  intros NF. destruct (if_transit _ _ _ _ _ _ _ _ F NF F0) as (id & f & A & B & C & D).
+  exists id, f. auto.
+Qed.
+
+Lemma c05_ok_model p : c05_ok c ing p (process macq c now ing p) = true.
+Proof.
+  unfold c05_ok, process. destruct (process_scion macq c now ing p) eqn:E; try reflexivity.
+  change (ing_ifid ing =? 0) with (from0 ing). destruct (from0 ing) eqn:F0.
+  - destruct (forward_from_inside _ _ _ _ F0 E) as (A & B & C).
+    apply N.eqb_neq in B. rewrite B. cbn [negb]. rewrite andb_true_r.
+    destruct (is_first_hop p) eqn:FH.
+    + apply N.eqb_eq. auto.
+    + destruct (C eq_refl) as (id & f & C1 & C2 & C3 & C4). rewrite C1.
+      unfold owner_is_sibling_link. rewrite C2, C3, C4. cbn. apply N.eqb_refl.
+  - destruct (forward_from_outside _ _ _ _ F0 E) as (A & B & C).
+    apply N.eqb_neq in A. rewrite A. cbn [negb andb].
+    apply andb_true_iff. split; apply eqb_true_iff.
+    + destruct (egress =? 0) eqn:E0.
+      * apply N.eqb_eq in E0. destruct (proj1 C E0) as [C1 C2]. rewrite C1.
+        apply N.eqb_eq in C2. rewrite C2. reflexivity.
+      * destruct (is_last_hop p && (p_dst_ia p =? c_ia c)) eqn:X; [|reflexivity].
+        apply andb_true_iff in X as [X1 X2]. apply N.eqb_eq in X2.
+        apply N.eqb_neq in E0. exfalso. apply E0. apply C. auto.
+    + destruct (is_last_hop p) eqn:L.
+      * symmetry. apply N.eqb_eq. now apply B.
+      * symmetry. apply N.eqb_neq. intros X. apply B in X. discriminate.
+Qed.
+
+(** the SCMP answers of validateSrcDstIA *)
+Lemma src_dst_ia_answers s :
+  (from0 ing = false -> p_src_ia (s_p s) = c_ia c ->
+   validate_src_dst_ia c ing s =
+     Stop (SlowPath (SpScmp ScmpParameterProblem CodeInvalidSourceAddress (CmnHdrLen + IABytes))
+                    (s_eg s) (s_p s))) /\
+  (from0 ing = false -> p_src_ia (s_p s) <> c_ia c ->
+   is_last_hop (s_p s) <> (p_dst_ia (s_p s) =? c_ia c) ->
+   validate_src_dst_ia c ing s =
+     Stop (SlowPath (SpScmp ScmpParameterProblem CodeInvalidDestinationAddress CmnHdrLen)
+                    (s_eg s) (s_p s))) /\
+  (from0 ing = true -> is_first_hop (s_p s) = true -> p_src_ia (s_p s) <> c_ia c ->
+   validate_src_dst_ia c ing s =
+     Stop (SlowPath (SpScmp ScmpParameterProblem CodeInvalidSourceAddress (CmnHdrLen + IABytes))
+                    (s_eg s) (s_p s))) /\
+  (from0 ing = true -> (is_first_hop (s_p s) = true -> p_src_ia (s_p s) = c_ia c) ->
+   p_dst_ia (s_p s) = c_ia c ->
+   validate_src_dst_ia c ing s =
+     Stop (SlowPath (SpScmp ScmpParameterProblem CodeInvalidDestinationAddress CmnHdrLen)
+                    (s_eg s) (s_p s))).
+Proof.
+  unfold validate_src_dst_ia, resp_invalid_src_ia, resp_invalid_dst_ia, slow.
+  repeat split.
+  - intros -> E. apply N.eqb_eq in E. rewrite E. reflexivity.
+  - intros -> E L. apply N.eqb_neq in E. rewrite E.
+    destruct (is_last_hop (s_p s)), (p_dst_ia (s_p s) =? c_ia c); cbn; try reflexivity; congruence.
+  - intros -> F E. apply N.eqb_neq in E. rewrite F, E. reflexivity.
+  - intros -> F E. apply N.eqb_eq in E. rewrite E.
+    destruct (is_first_hop (s_p s)); [|reflexivity].
+    specialize (F eq_refl). apply N.eqb_eq in F. rewrite F. reflexivity.
+Qed.
+
+End C05.
+
+(** * C01 *)
+Section C01.
+Variable mac : N -> N -> N -> N -> N -> list N.
+Notation macq := (total mac).
+Variable c : cfg.
+Variable now : N.
+Variable ing : ingress.
+
+Lemma hop_ok_total i h :
+  hop_ok macq now i h = true <-> mac_valid mac i h /\ expired now i h = false.
+Proof.
+  unfold hop_ok, total, mac_valid. rewrite andb_true_iff, list_eqb_N, negb_true_iff. tauto.
+Qed.
+
+(** Forward => the current hop (and at an effective cross-over the first hop of the next
+    segment) carries the MAC the AS key gives for the packet's SegID accumulator, and is live. *)
+Lemma forward_sound p e out d :
+  process_scion macq c now ing p = Forward e out d ->
+  exists i h, cur_inf p = Some i /\ cur_hop p = Some h /\
+    mac_valid mac (verif_info ing p i h) h /\ expired now i h = false /\
+    (p_dst_ia p <> c_ia c -> eff_xover p = true ->
+     exists i' h', nthN (p_infos p) (p_curr_inf p + 1) = Some i' /\
+                   nthN (p_hops p) (p_curr_hf p + 1) = Some h' /\
+                   mac_valid mac i' h' /\ expired now i' h' = false).
+Proof.
+  intros H. apply process_forward_inv in H as (s & i & h & F & D).
+  exists i, h. split; [apply (if_inf _ _ _ _ _ _ _ _ F)|]. split; [apply (if_hop _ _ _ _ _ _ _ _ F)|].
+  split; [apply (if_mac _ _ _ _ _ _ _ _ F)|]. split; [apply (if_live _ _ _ _ _ _ _ _ F)|].
+  intros ND X. destruct D as [(A & _) | (_ & _ & s' & G & _)]; [contradiction|].
+  pose proof (ef_x _ _ _ _ _ _ G) as EX. rewrite (xover_cond_eff _ _ _ _ _ _ _ _ F), X in EX.
+  destruct EX as (h' & i' & Eh & Ei & _ & _ & _ & _ & L & M).
+  exists i', h'.
+  pose proof (if_pkt _ _ _ _ _ _ _ _ F) as EP.
+  assert (Hops : p_hops (s_p s) = p_hops p) by (rewrite EP; destruct (folds ing p i); reflexivity).
+  assert (Hf : p_curr_hf (s_p s) = p_curr_hf p) by (rewrite EP; destruct (folds ing p i); reflexivity).
+  assert (Idx : inf_index_for_hf (s_p s) (p_curr_hf (s_p s) + 1) = p_curr_inf p + 1).
+  { assert (E : inf_index_for_hf (s_p s) (p_curr_hf (s_p s) + 1) = inf_index_for_hf p (p_curr_hf p + 1))
+      by (rewrite EP; destruct (folds ing p i); reflexivity).
+    rewrite E. unfold eff_xover in X. apply andb_true_iff in X as [X _].
+    unfold is_xover in X. apply andb_true_iff in X as [X1 X2].
+    apply N.ltb_lt in X1. apply negb_true_iff, N.eqb_neq in X2.
+    rewrite (if_match _ _ _ _ _ _ _ _ F) in X2 |- *.
+    apply inf_index_step; [apply (if_seglen _ _ _ _ _ _ _ _ F) | exact X1 | congruence]. }
+  rewrite Idx in Ei. rewrite Hops, Hf in Eh.
+  repeat split; try assumption.
+  rewrite EP in Ei. destruct (folds ing p i); [|exact Ei].
+  cbn [with_infos p_infos] in Ei. rewrite nthN_set_other in Ei; [exact Ei | lia].
+Qed.
+
+(** ** Stops: which results the individual checks can produce *)
+Definition c01_clause (p : pkt) (r : result) : bool := c01_ok macq c now ing p r.
+
+Lemma benign_scmp p ty code ptr e out :
+  (ty =? ScmpParameterProblem) && ((code =? CodeInvalidHopFieldMAC) || (code =? CodePathExpired)) = false ->
+  c01_clause p (SlowPath (SpScmp ty code ptr) e out) = true.
+Proof. intros H. unfold c01_clause, c01_ok. rewrite H. reflexivity. Qed.
+
+(** coherence of the processor's copies with the buffer, as far as the MAC input goes *)
+Record coherent (p : pkt) (s : st) : Prop := {
+  co_geom : addr_len (s_p s) = addr_len p /\ num_inf (s_p s) = num_inf p /\ num_hops (s_p s) = num_hops p;
+  co_hops : p_hops (s_p s) = p_hops p;
+  co_hop : nthN (p_hops (s_p s)) (p_curr_hf (s_p s)) = Some (s_hop s);
+  co_inf : exists i0, nthN (p_infos (s_p s)) (p_curr_inf (s_p s)) = Some i0 /\
+                      i_segid i0 = i_segid (s_inf s) /\ i_ts i0 = i_ts (s_inf s);
+  co_len : p_curr_hf (s_p s) < num_hops p
+}.
+
+Lemma expiry_stop_clause p s r :
+  coherent p s -> validate_hop_expiry now s = Stop r -> c01_clause p r = true.
+Proof.
+  intros [(G1 & G2 & G3) HP CH (i0 & CI & S1 & S2) CL]. rewrite HP in CH.
+  unfold validate_hop_expiry, slow.
+  destruct (expired now (s_inf s) (s_hop s)) eqn:E; [|discriminate]. intros [= <-].
+  unfold c01_clause, c01_ok. cbn [andb orb N.eqb ScmpParameterProblem CodePathExpired CodeInvalidHopFieldMAC Pos.eqb].
+  rewrite CI, CH.
+  assert (P : hop_ptr (s_p s) = hop_off p (p_curr_hf (s_p s))).
+  { unfold hop_ptr, hop_off, meta_off. rewrite G1, G2. reflexivity. }
+  rewrite P, N.eqb_refl. apply N.ltb_lt in CL. rewrite CL. cbn [andb].
+  unfold expired in *. rewrite S2. exact E.
+Qed.
+
+Lemma mac_stop_clause p s r :
+  coherent p s -> verify_current_mac macq s = Stop r -> c01_clause p r = true.
+Proof.
+  intros [(G1 & G2 & G3) HP CH (i0 & CI & S1 & S2) CL]. rewrite HP in CH.
+  unfold verify_current_mac, slow, mac_of, total.
+  destruct (list_eqb N.eqb (h_mac (s_hop s)) _) eqn:E; [discriminate|]. intros [= <-].
+  unfold c01_clause, c01_ok. cbn [andb orb N.eqb ScmpParameterProblem CodePathExpired CodeInvalidHopFieldMAC Pos.eqb].
+  rewrite CI, CH.
+  assert (P : hop_ptr (s_p s) = hop_off p (p_curr_hf (s_p s))).
+  { unfold hop_ptr, hop_off, meta_off. rewrite G1, G2. reflexivity. }
+  rewrite P, N.eqb_refl. apply N.ltb_lt in CL. rewrite CL. cbn [andb].
+  unfold total. rewrite S1, S2, E. reflexivity.
+Qed.
+
+End C01.
+
+Section C01b.
+Variable mac : N -> N -> N -> N -> N -> list N.
+Notation macq := (total mac).
+Variable c : cfg.
+Variable now : N.
+Variable ing : ingress.
+Notation clause := (c01_clause mac c now ing).
+Notation coh := (coherent).
+
+Ltac benign :=
+  let H := fresh in
+  intros H; inversion H; subst;
+  first [ reflexivity | apply benign_scmp; reflexivity ].
+
+Lemma parse_path_clause p r : parse_path p = Stop r -> clause p r = true.
+Proof.
+  unfold parse_path.
+  repeat match goal with
+  | |- context [if ?b then _ else _] => destruct b
+  | |- context [match ?x with Some _ => _ | None => _ end] => destruct x
+  end; benign.
+Qed.
+Lemma determine_peer_clause p s r : determine_peer s = Stop r -> clause p r = true.
+Proof.
+  unfold determine_peer.
+  repeat match goal with |- context [if ?b then _ else _] => destruct b end; benign.
+Qed.
+Lemma ingress_id_clause p s r : validate_ingress_id ing s = Stop r -> clause p r = true.
+Proof.
+  unfold validate_ingress_id, slow. destruct (negb (from0 ing) && _); [|discriminate].
+  destruct (i_consdir (s_inf s)); benign.
+Qed.
+Lemma pkt_len_clause p s r : validate_pkt_len s = Stop r -> clause p r = true.
+Proof. unfold validate_pkt_len, slow. destruct (_ =? _); [discriminate | benign]. Qed.
+Lemma transit_clause p s r : validate_transit_underlay_src c ing s = Stop r -> clause p r = true.
+Proof.
+  unfold validate_transit_underlay_src.
+  repeat match goal with
+  | |- context [if ?b then _ else _] => destruct b
+  | |- context [match ?x with Some _ => _ | None => _ end] => destruct x
+  end; benign.
+Qed.
+Lemma src_dst_clause p s r : validate_src_dst_ia c ing s = Stop r -> clause p r = true.
+Proof.
+  unfold validate_src_dst_ia, resp_invalid_src_ia, resp_invalid_dst_ia, slow.
+  repeat match goal with |- context [if ?b then _ else _] => destruct b end; benign.
+Qed.
+Lemma src_host_clause p s r : validate_src_host c s = Stop r -> clause p r = true.
+Proof.
+  unfold validate_src_host, slow. destruct (negb _); [discriminate|].
+  destruct (parse_host _ _); try benign. destruct (is_4in6 ip); benign.
+Qed.
+Lemma ingress_alert_clause p s r : handle_ingress_router_alert ing s = Stop r -> clause p r = true.
+Proof.
+  unfold handle_ingress_router_alert. destruct (from0 ing); [discriminate|].
+  destruct (negb _); [discriminate|]. benign.
+Qed.
+Lemma egress_id_clause p s r : validate_egress_id c ing s = Stop r -> clause p r = true.
+Proof.
+  unfold validate_egress_id, slow. destruct (validate_egress _ _ _ _); try discriminate;
+    try destruct (i_consdir (s_inf s)); benign.
+Qed.
+Lemma egress_alert_clause p s r : handle_egress_router_alert c s = Stop r -> clause p r = true.
+Proof.
+  unfold handle_egress_router_alert. destruct (negb _); [discriminate|].
+  destruct (negb _); [discriminate|]. benign.
+Qed.
+Lemma egress_up_clause p s r : validate_egress_up c s = Stop r -> clause p r = true.
+Proof.
+  unfold validate_egress_up, slow. destruct (if_up _); [discriminate|].
+  destruct (scope_eqb _ _); benign.
+Qed.
+Lemma do_xover_clause p s r : do_xover s = Stop r -> clause p r = true.
+Proof.
+  unfold do_xover. destruct (nthN (p_hops _) _); [destruct (nthN (p_infos _) _)|]; benign.
+Qed.
+
+Lemma coherent_initial p h i pe :
+  well_formed p = true ->
+  nthN (p_hops p) (p_curr_hf p) = Some h -> nthN (p_infos p) (p_curr_inf p) = Some i ->
+  coh p (mkSt p h i pe false 0).
+Proof.
+  intros W Hh Hi. constructor; cbn; auto.
+  - exists i. auto.
+  - apply nthN_lt in Hh. unfold well_formed in W. apply andb_true_iff in W as [_ W].
+    apply N.eqb_eq in W. lia.
+Qed.
+
+Lemma coherent_store_inf p s i' :
+  coh p s -> i_ts i' = i_ts (s_inf s) -> coh p (store_inf s i').
+Proof.
+  intros [G HP CH (i0 & CI & S1 & S2) CL] T. constructor; cbn; auto.
+  exists (ser_info i'). split; [eapply nthN_set_same; eassumption|]. auto.
+Qed.
+
+Lemma coherent_xover p s h' i' :
+  well_formed p = true ->
+  coh p s ->
+  nthN (p_hops (s_p s)) (p_curr_hf (s_p s) + 1) = Some h' ->
+  nthN (p_infos (s_p s)) (inf_index_for_hf (s_p s) (p_curr_hf (s_p s) + 1)) = Some i' ->
+  coh p (mkSt (inc_path (s_p s)) h' i' (s_peer s) true (s_eg s)).
+Proof.
+  intros W [G HP CH CI CL] Hh Hi. constructor; cbn; auto.
+  - exists i'. auto.
+  - apply nthN_lt in Hh. rewrite HP in Hh. unfold well_formed in W.
+    apply andb_true_iff in W as [_ W]. apply N.eqb_eq in W. lia.
+Qed.
+
+Lemma ingress_stop_clause p r :
+  ingress_part macq c now ing p = Stop r -> clause p r = true.
+Proof.
+  unfold ingress_part. intros H.
+  apply bind_stop in H as [H | (s10 & H & H')]; [| eapply ingress_alert_clause; eassumption].
+  apply bind_stop in H as [H | (s9 & H & H')].
+  2:{ (* verifyCurrentMAC *)
+    eapply mac_stop_clause; [|eassumption].
+    apply bind_ok in H as (s8 & H & H9). apply bind_ok in H as (s7 & H & H8).
+    apply bind_ok in H as (s6 & H & H7). apply bind_ok in H as (s5 & H & H6).
+    apply bind_ok in H as (s4 & H & H5). apply bind_ok in H as (s3 & H & H4).
+    apply bind_ok in H as (s2 & H & H3). apply bind_ok in H as (s1 & H1 & H2).
+    apply parse_path_ok in H1 as (E1 & Ph & Pi & Pwf & _).
+    destruct s1 as [p1 h i pe1 xo1 eg1]. cbn [s_hop s_inf s_p] in *.
+    injection E1 as -> -> -> ->.
+    apply validate_hop_expiry_ok in H3 as [-> _].
+    apply validate_ingress_id_ok in H4 as [-> _].
+    apply validate_pkt_len_ok in H5 as [-> _].
+    apply validate_transit_ok in H6 as [-> _].
+    apply validate_src_dst_ia_ok in H7 as [-> _].
+    apply validate_src_host_ok in H8 as ->.
+    apply update_segid_ok in H9.
+    assert (C2 : coh p s2).
+    { apply determine_peer_ok in H2. cbn [s_hop s_inf s_p s_xover s_eg] in H2.
+      destruct H2 as [-> | [_ ->]]; apply coherent_initial; assumption. }
+    subst s9. destruct (_ && _); [|exact C2].
+    apply coherent_store_inf; [exact C2 | reflexivity]. }
+  apply bind_stop in H as [H | (s8 & H & H')];
+    [| exfalso; unfold update_noncons_ingress_segid in H'; destruct (_ && _) in H'; discriminate H'].
+  apply bind_stop in H as [H | (s7 & H & H')]; [| eapply src_host_clause; eassumption].
+  apply bind_stop in H as [H | (s6 & H & H')]; [| eapply src_dst_clause; eassumption].
+  apply bind_stop in H as [H | (s5 & H & H')]; [| eapply transit_clause; eassumption].
+  apply bind_stop in H as [H | (s4 & H & H')]; [| eapply pkt_len_clause; eassumption].
+  apply bind_stop in H as [H | (s3 & H & H')]; [| eapply ingress_id_clause; eassumption].
+  apply bind_stop in H as [H | (s2 & H & H')].
+  2:{ (* validateHopExpiry *)
+    eapply expiry_stop_clause; [|eassumption].
+    apply bind_ok in H as (s1 & H1 & H2).
+    apply parse_path_ok in H1 as (E1 & Ph & Pi & Pwf & _).
+    destruct s1 as [p1 h i pe1 xo1 eg1]. cbn [s_hop s_inf s_p] in *.
+    injection E1 as -> -> -> ->.
+    apply determine_peer_ok in H2. cbn [s_hop s_inf s_p s_xover s_eg] in H2.
+    destruct H2 as [-> | [_ ->]]; apply coherent_initial; assumption. }
+  apply bind_stop in H as [H | (s1 & H & H')]; [| eapply determine_peer_clause; eassumption].
+  eapply parse_path_clause; eassumption.
+Qed.
+
+Lemma ingress_coherent p s i h :
+  ingress_facts mac c now ing p s i h -> coh p s.
+Proof.
+  intros F.
+  assert (C0 : coh p (mkSt p h i (peering_of p) false 0)).
+  { apply coherent_initial; [apply (if_wf _ _ _ _ _ _ _ _ F) | apply (if_hop _ _ _ _ _ _ _ _ F)
+                            | apply (if_inf _ _ _ _ _ _ _ _ F)]. }
+  destruct s as [sp sh si spe sx se].
+  pose proof (if_shop _ _ _ _ _ _ _ _ F) as E1. pose proof (if_sinf _ _ _ _ _ _ _ _ F) as E2.
+  pose proof (if_peer _ _ _ _ _ _ _ _ F) as E3. pose proof (if_xover _ _ _ _ _ _ _ _ F) as E4.
+  pose proof (if_eg _ _ _ _ _ _ _ _ F) as E5. pose proof (if_pkt _ _ _ _ _ _ _ _ F) as E6.
+  cbn in E1, E2, E3, E4, E5, E6. subst sh si spe sx se sp.
+  rewrite verif_info_fold. destruct (folds ing p i).
+  - apply (coherent_store_inf p (mkSt p h i (peering_of p) false 0) (upd_segid i h) C0). reflexivity.
+  - exact C0.
+Qed.
+
+Lemma egress_stop_clause p s i h r :
+  ingress_facts mac c now ing p s i h ->
+  egress_part macq c now ing s = Stop r -> clause p r = true.
+Proof.
+  intros F. pose proof (ingress_coherent _ _ _ _ F) as C.
+  unfold egress_part. intros H.
+  apply bind_stop in H as [H | (s0 & H & H')]; [| eapply egress_up_clause; eassumption].
+  apply bind_stop in H as [H | (s0 & H & H')]; [| eapply egress_alert_clause; eassumption].
+  apply bind_stop in H as [H | (s0 & H & H')]; [| eapply egress_id_clause; eassumption].
+  apply bind_stop in H as [H | (s0 & H & H')]; [| unfold set_egress in H'; discriminate H'].
+  unfold xover_part in H. destruct (_ && _); [|discriminate].
+  apply bind_stop in H as [H | (s2 & H & H')].
+  2:{ eapply mac_stop_clause; [|eassumption].
+      apply bind_ok in H as (s1 & H1 & H2). apply validate_hop_expiry_ok in H2 as [-> _].
+      apply do_xover_ok in H1 as (h' & i' & A & B & ->).
+      apply coherent_xover; try assumption. apply (if_wf _ _ _ _ _ _ _ _ F). }
+  apply bind_stop in H as [H | (s1 & H & H')]; [eapply do_xover_clause; eassumption|].
+  eapply expiry_stop_clause; [|eassumption].
+  apply do_xover_ok in H as (h' & i' & A & B & ->).
+  apply coherent_xover; try assumption. apply (if_wf _ _ _ _ _ _ _ _ F).
+Qed.
+
+Lemma resolve_inbound_clause p s r :
+  resolve_inbound c s = r -> not_forward r -> clause p r = true.
+Proof.
+  unfold resolve_inbound. intros <-.
+  destruct (parse_host _ _).
+  - destruct (p_l4_port _); [destruct (_ || _)|]; cbn; intros N; try reflexivity; destruct N.
+  - destruct (lookup_svc _ _); cbn; intros N; try reflexivity; destruct N.
+  - reflexivity.
+Qed.
+
+Lemma nonforward_clause p r :
+  process_scion macq c now ing p = r -> not_forward r -> clause p r = true.
+Proof.
+  unfold process_scion.
+  destruct (ingress_part macq c now ing p) as [s|r0] eqn:EI.
+  2:{ intros <- _. now apply ingress_stop_clause. }
+  destruct (ingress_part_ok _ _ _ _ _ _ EI) as (i & h & F).
+  destruct (p_dst_ia p =? c_ia c).
+  - apply resolve_inbound_clause.
+  - destruct (egress_part macq c now ing s) as [s'|r0] eqn:EE.
+    + unfold finish, process_egress. intros <-.
+      repeat match goal with |- context [if ?b then _ else _] => destruct b end;
+        cbn; intros N; try reflexivity; destruct N.
+    + intros <- _. eapply egress_stop_clause; eassumption.
+Qed.
+
+Lemma c01_ok_model p : c01_ok macq c now ing p (process macq c now ing p) = true.
+Proof.
+  unfold process.
+  destruct (process_scion macq c now ing p) as [| | |e out d| rq e out| |] eqn:E; try reflexivity.
+  - (* Forward *)
+    destruct (forward_sound _ _ _ _ _ _ _ _ E) as (i & h & A & B & M & L & X).
+    unfold c01_ok. unfold cur_inf, cur_hop in A, B |- *. rewrite A, B.
+    assert (EV : expired now (verif_info ing p i h) h = expired now i h)
+      by (unfold verif_info; destruct (_ && _); reflexivity).
+    apply andb_true_iff. split; [apply hop_ok_total; split; [assumption | now rewrite EV]|].
+    destruct (negb (p_dst_ia p =? c_ia c) && eff_xover p) eqn:Y; [|reflexivity].
+    apply andb_true_iff in Y as [Y1 Y2]. apply negb_true_iff, N.eqb_neq in Y1.
+    destruct (X Y1 Y2) as (i' & h' & A' & B' & M' & L'). rewrite A', B'.
+    apply hop_ok_total; split; assumption.
+  - (* SlowPath *)
+    change (clause p (SlowPath rq e out) = true). apply nonforward_clause; [exact E | exact I].
+Qed.
+
+(** ** "exactly that SCMP" *)
+Lemma expired_answered s :
+  expired now (s_inf s) (s_hop s) = true ->
+  validate_hop_expiry now s =
+    Stop (SlowPath (SpScmp ScmpParameterProblem CodePathExpired (hop_ptr (s_p s))) (s_eg s) (s_p s)).
+Proof. unfold validate_hop_expiry, slow. intros ->. reflexivity. Qed.
+
+Lemma bad_mac_answered s :
+  h_mac (s_hop s) <> mac (i_segid (s_inf s)) (i_ts (s_inf s)) (h_exp (s_hop s))
+                         (h_in (s_hop s)) (h_eg (s_hop s)) ->
+  verify_current_mac macq s =
+    Stop (SlowPath (SpScmp ScmpParameterProblem CodeInvalidHopFieldMAC (hop_ptr (s_p s)))
+                   (s_eg s) (s_p s)).
+Proof.
+  unfold verify_current_mac, slow, mac_of, total. intros H.
+  destruct (list_eqb N.eqb _ _) eqn:E; [|reflexivity].
+  apply list_eqb_N in E. contradiction.
+Qed.
+
+End C01b.
